@@ -323,3 +323,36 @@ func TestIndexRuneOfInvalidRune(t *testing.T) {
 		}
 	}
 }
+
+// axiom: any two integer or floating-point types (kinds 2..14) convert to each other; a boxed float64 reads back
+// through Value.Float; Go's / and % truncate toward zero (godiv/gorem agree with div/mod on the non-negative quadrant).
+func TestNumericTypesConvertAndFloatObserver(t *testing.T) {
+	type myInt int16
+	type myFloat float32
+	vals := []interface{}{int(1), int8(1), int16(1), int32(1), int64(1), uint(1), uint8(1), uint16(1), uint32(1), uint64(1), uintptr(1), float32(1), float64(1), myInt(1), myFloat(1)}
+	for _, a := range vals {
+		for _, b := range vals {
+			ta, tb := reflect.TypeOf(a), reflect.TypeOf(b)
+			if ta.Kind() < 2 || ta.Kind() > 14 || tb.Kind() < 2 || tb.Kind() > 14 {
+				t.Fatalf("kind numbering changed: %v %v", ta.Kind(), tb.Kind())
+			}
+			if !ta.ConvertibleTo(tb) {
+				t.Errorf("%v not convertible to %v", ta, tb)
+			}
+		}
+	}
+	for _, f := range []float64{0, 1.5, -2.25, 1e300} {
+		v := reflect.ValueOf(f)
+		if !v.IsValid() || v.Kind() != reflect.Float64 || v.Float() != f {
+			t.Errorf("ValueOf(%v): kind %v Float %v", f, v.Kind(), v.Float())
+		}
+	}
+	for a := int64(0); a < 40; a++ {
+		for b := int64(1); b < 9; b++ {
+			q, r := a/b, a%b
+			if q*b+r != a || r < 0 || r >= b {
+				t.Errorf("%d/%d = %d rem %d", a, b, q, r)
+			}
+		}
+	}
+}
